@@ -35,3 +35,22 @@ end P
 def showNats (l : List Nat) : String := " ".intercalate (l.map toString)
 
 end AITB
+
+namespace AITB
+/-- Result of one protocol line.  `fail` = the property's own clause is false on the
+    implementation's output (L3 checker); `diff` = model and implementation differ (L2b).
+    A `fail` takes precedence when both are present: it is the failing input. -/
+structure Verdict where
+  tag : String := ""
+  diffs : List String := []
+  fails : List String := []
+
+def Verdict.render (v : Verdict) : String :=
+  match v.fails, v.diffs with
+  | f :: _, _ => "fail " ++ f
+  | [], d :: _ => "diff " ++ d
+  | [], [] => if v.tag == "" then "ok" else "ok " ++ v.tag
+
+def Verdict.diffIf (v : Verdict) (c : Bool) (msg : String) : Verdict := if c then { v with diffs := v.diffs ++ [msg] } else v
+def Verdict.failIf (v : Verdict) (c : Bool) (msg : String) : Verdict := if c then { v with fails := v.fails ++ [msg] } else v
+end AITB
